@@ -100,6 +100,20 @@ def oracle(ctx, line, res):
             fails.append({"kind": "unprefixed-changes-value", "q": str(q), "got": str(r.magnitude), "want": float(want)})
         if list(r.unit.factors.items()) != list(q.unit.factors.items()) or r.unit.dimension is not q.unit.dimension:
             fails.append({"kind": "unprefixed-changes-unit", "q": str(q)})
+    elif f[0] == "X" and f[1] == "conv" and getattr(ctx, "expect_conv", (None,))[0] == line:
+        _, i1, ptxt = ctx.expect_conv
+        ctx.expect_conv = (None,)
+        if res.startswith("ok\tq"):
+            ctx.oracle_checks += 1
+            r1, r2 = ctx.sess.qs[i1], ctx.sess.qs[-1]
+            v = pval(r1.unit.prefix)
+            if v is not None:
+                got, want = F(r1.magnitude) * v, F(r2.magnitude)
+                slack = F(1000) if r2.unit.dimension.name == "temperature" else F(0)
+                if abs(got - want) > F(1, 10**9) * (max(abs(got), abs(want)) + slack):
+                    fails.append({"kind": "prefixed-target-conversion", "law": "q.in_unit(p*u) * value(p) == q.in_unit(u)",
+                                  "prefix": ptxt, "into_prefixed": str(r1), "into_plain": str(r2),
+                                  "si_prefixed": float(got), "si_plain": float(want)})
     elif f[0] == "X" and f[1] == "pvalue" and res.startswith("ok\tm"):
         ctx.oracle_checks += 1
         p = ctx.sess.arg(f[2])
@@ -177,7 +191,7 @@ def generate(ctx, n_ops):
             u = ctx.base_units[0]
         n = ctx.small_int(-4, 4, nonzero=True)
         m = rng.choice(["i:1", "i:3", "i:-7", ftok(2.5), ftok(1e-3), "d:125/10"])
-        law = rng.choice(["shift", "powprefix", "ppq", "unpre", "divpre", "identity", "pvalue", "proot"])
+        law = rng.choice(["shift", "powprefix", "ppq", "unpre", "divpre", "identity", "pvalue", "proot", "convpre"])
         if law == "pvalue":
             yield "X\tpvalue\t%s" % ptok(p)
             emitted += 1
@@ -205,6 +219,42 @@ def generate(ctx, n_ops):
             if res.startswith("ok\tp"):
                 yield "X\troot\t%s\tn:%d" % (res.split("\t")[1], n)
                 emitted += 1
+            continue
+        if law == "convpre":
+            # converting INTO p*u is converting into u and dividing by value(p) - with offsets too (the target
+            # prefix must be divided out after the path, not before): fundamental base units only (the
+            # planner's clean fragment), temperatures over-represented
+            fund = getattr(ctx, "fund_base", None)
+            if fund is None:
+                fund = ctx.fund_base = [i for i in ctx.base_units
+                                        if sum(abs(e) for e in ctx.unit(i).dimension.exponents) == 1]
+                ctx.temp_base = [i for i in fund if ctx.unit(i).dimension.name == "temperature"]
+            u2 = rng.choice(ctx.temp_base) if (ctx.temp_base and rng.random() < 0.4) else rng.choice(fund)
+            ws = [j for j in fund if j != u2 and ctx.unit(j).dimension is ctx.unit(u2).dimension]
+            if not ws or p.base == 0:
+                continue
+            w = rng.choice(ws)
+            pu2 = uref((yield "U\tpmul\t%s\tu%d" % (ptok(p), u2)))
+            emitted += 1
+            if pu2 is None:
+                continue
+            res = yield "X\tqnew\t%s\tu%d" % (m, w)
+            emitted += 1
+            if not res.startswith("ok\tq"):
+                continue
+            qa = ctx.nq
+            ctx.nq += 1
+            r1 = yield "X\tconv\tq%d\tu%d" % (qa, pu2)
+            emitted += 1
+            if r1.startswith("ok\tq"):
+                ctx.nq += 1
+            line = "X\tconv\tq%d\tu%d" % (qa, u2)
+            if r1.startswith("ok\tq"):
+                ctx.expect_conv = (line, len(ctx.sess.qs) - 1, ptok(p))
+            r2 = yield line
+            emitted += 1
+            if r2.startswith("ok\tq"):
+                ctx.nq += 1
             continue
         pu = uref((yield "U\tpmul\t%s\tu%d" % (ptok(p), u)))
         emitted += 1
